@@ -199,8 +199,9 @@ def jobs(tier, seed):
     if tier == 'quick':
         cfg = [('P1', 0, 0, 0, 1.0, None), ('P-1', 0, 0, 0, 1.0, None), ('P-1', 1, 0, 1, 1.0, None), ('P-1', 0, 0, 0, 1.0, [2, 1, 1])]
     else:
-        cfg = [(g, ax, i, j, r, None) for g in ('P1', 'P-1', 'P2_1/c', 'Pnma') for ax in (0, 1, 2) for (i, j) in ((0, 0), (1, 2)) for r in (1.0, 1.6)] + \
-              [('P-1', 0, 0, 0, 1.0, [2, 1, 1]), ('P-1', 1, 0, 1, 1.0, [1, 2, 2]), ('Pnma', 0, 0, 0, 1.0, [2, 1, 1])]
+        cfg = [(g, ax, i, j, r, None) for g in ('P1', 'P-1', 'P2_1/c') for ax in (0, 1, 2) for (i, j) in ((0, 0), (1, 2)) for r in (1.0, 1.6)] + \
+              [('Pnma', ax, 0, 0, 1.0, None) for ax in (0, 2)] + \
+              [('P-1', 0, 0, 0, 1.0, [2, 1, 1]), ('P-1', 1, 0, 1, 1.0, [1, 2, 2])]
     for g, ax, i, j, r, sc in cfg:
         tag = g.replace('/', '').replace('_', '')
         js.append(dict(name=f'shape_{tag}_axis{ax}_s{i}p{j}_r{r}' + (f'_sc{"".join(map(str, sc))}' if sc else ''), fn='shape_job',
